@@ -58,6 +58,18 @@ Theorem C15_never_blocks_for_ever : forall k o c ev phase now fuel t,
 Proof. exact op_returns. Qed.
 Print Assumptions C15_never_blocks_for_ever.
 
+(* A Send over a TCP connection upgraded to TLS: a write that does not succeed ends with an error no later than a
+   deadline, and no later than one poll interval after it began whatever the context does (crypto/tls makes a
+   timed-out write permanent, so the loop does not go round). *)
+Theorem C15_send_over_tls : forall poll c ev now r res,
+  0 < poll -> tls_write poll c ev now = (r, res) ->
+  now <= r <= now + poll /\
+  (forall t, c = CDeadline t -> r <= Z.max now t) /\
+  (res = WOk -> exists e, ev = Some e /\ r = Z.max now e) /\
+  (res = WCtx -> exists t, ctx_time c = Some t /\ t <= now /\ r = now).
+Proof. exact tls_write_bound. Qed.
+Print Assumptions C15_send_over_tls.
+
 (* The full statement is false of the faithful model for one operation: the server's FinishSession
    over TCP, after its send was ended by the context, waits for its own receiver's current poll.
    The witness is replayed on the implementation by the correspondence (known finding). *)
